@@ -1,7 +1,8 @@
-(* Stages B - E of C01_back: programs over variables.  A program is a list of statements - declarations `x := e`
+(* Stages B - F of C01_back: programs over variables.  A program is a list of statements - declarations `x := e`
    (at the top level AND inside blocks: a variable declared in a block is visible until the block ends), assignments
    `x = e`, `x += e` (also -= *= /=), `x++`, `x--`, expression statements, conditionals `if c { ... } else { ... }` /
-   `if c { ... }` and condition loops `for c { ... }` with break and continue, whose blocks are again lists of
+   `if c { ... }`, condition loops `for c { ... }` and three-clause loops `for x := e; c; p { ... }` (p one of
+   `x_i = e`, `x_i op= e`, `x_i++`, `x_i--`) with break and continue, whose blocks are again lists of
    statements, nested to any depth - over the scalar expressions of ScalarFrag.v.  A variable is referred to by its
    position among the variables VISIBLE at that point (in declaration order); the compiler gives the d-th declaration
    of the program text the global slot d, whatever block it is in.  [names] gives the slots their (distinct, non-empty)
@@ -22,6 +23,7 @@ Inductive stmt :=
 | SIf (c : sexp) (t e : list stmt)       (* if c { t } else { e } *)
 | SIf1 (c : sexp) (t : list stmt)        (* if c { t } *)
 | SWhile (c : sexp) (b : list stmt)      (* for c { b } *)
+| SFor (e c : sexp) (p : stmt) (b : list stmt)   (* for x := e; c; p { b } : x is visible in c, p and b; p is x_i = .., x_i op= .., x_i++ *)
 | SBreak | SContinue.                    (* only inside a loop body *)
 
 Definition is_compound (o : bop) : bool := match o with BAdd | BSub | BMul | BDiv => true | _ => false end.
@@ -33,6 +35,7 @@ Fixpoint nd (s : stmt) : nat :=
   | SDecl _ => 1
   | SIf _ t e => sum_list nd t + sum_list nd e
   | SIf1 _ b | SWhile _ b => sum_list nd b
+  | SFor _ _ _ b => S (sum_list nd b)
   | _ => 0
   end.
 Definition ndecls (l : list stmt) : nat := sum_list nd l.
@@ -60,6 +63,9 @@ Fixpoint embed_stmt (names : list (list N)) (k : nat) (scope : list nat) (s : st
                      (Some (embed_list (embed_stmt names) (k + sum_list nd t) scope e))
   | SIf1 c t => NIf (embed vn c) (embed_list (embed_stmt names) k scope t) None
   | SWhile c b => NFor (Some (embed vn c)) None None (embed_list (embed_stmt names) k scope b)
+  | SFor e c p b => let sc1 := scope ++ [k] in
+                    NFor (Some (embed (vnames names sc1) c)) (Some (NVar (nth k names []) (embed vn e)))
+                         (Some (embed_stmt names (S k) sc1 p)) (embed_list (embed_stmt names) (S k) sc1 b)
   | SBreak => NBreak
   | SContinue => NContinue
   end.
@@ -70,6 +76,8 @@ Definition embed_stmts (names : list (list N)) : nat -> list nat -> list stmt ->
 Definition wf_list (w : nat -> stmt -> bool) : nat -> list stmt -> bool :=
   fix wl (n : nat) (l : list stmt) : bool :=
     match l with [] => true | s :: r => w n s && wl (match s with SDecl _ => S n | _ => n end) r end.
+(* the post statement of a three-clause loop *)
+Definition is_simple (s : stmt) : bool := match s with SSet _ _ | SSetOp _ _ _ | SInc _ _ => true | _ => false end.
 (* variables are used while they are visible; break / continue only inside a loop *)
 Fixpoint wf_stmt (lp : bool) (n : nat) (s : stmt) {struct s} : bool :=
   match s with
@@ -80,6 +88,7 @@ Fixpoint wf_stmt (lp : bool) (n : nat) (s : stmt) {struct s} : bool :=
   | SIf c t e => wf n c && wf_list (wf_stmt lp) n t && wf_list (wf_stmt lp) n e
   | SIf1 c t => wf n c && wf_list (wf_stmt lp) n t
   | SWhile c b => wf n c && wf_list (wf_stmt true) n b
+  | SFor e c p b => wf n e && wf (S n) c && is_simple p && wf_stmt lp (S n) p && wf_list (wf_stmt true) (S n) b
   | SBreak | SContinue => lp
   end.
 Definition wf_stmts (lp : bool) : nat -> list stmt -> bool := wf_list (wf_stmt lp).
@@ -92,6 +101,7 @@ Fixpoint sheight (s : stmt) : nat :=
   | SInc _ _ => 0
   | SIf c t e => S (Nat.max (height c) (Nat.max (max_list sheight 0 t) (max_list sheight 0 e)))
   | SIf1 c b | SWhile c b => S (Nat.max (height c) (max_list sheight 0 b))
+  | SFor e c p b => S (Nat.max (height e) (Nat.max (height c) (Nat.max (sheight p) (max_list sheight 0 b))))
   | SBreak | SContinue => 0
   end.
 Fixpoint sneed (s : stmt) : nat :=
@@ -101,6 +111,7 @@ Fixpoint sneed (s : stmt) : nat :=
   | SInc _ _ => 2
   | SIf c t e => Nat.max (need c) (Nat.max (max_list sneed 1 t) (max_list sneed 1 e))
   | SIf1 c b | SWhile c b => Nat.max (need c) (max_list sneed 1 b)
+  | SFor e c p b => Nat.max (need e) (Nat.max (need c) (Nat.max (sneed p) (max_list sneed 1 b)))
   | SBreak | SContinue => 1
   end.
 Definition max_height (l : list stmt) : nat := max_list sheight 0 l.
@@ -135,6 +146,28 @@ Definition run_block (step : list sval -> stmt -> result) (rho : list sval) (l :
   option_map (trunc (length rho)) (run_list step rho l VNil).
 Definition of_sev (r : sval + serr) (k : sval -> (list sval * sval)) : result :=
   match r with inl v => Some (inl (k v)) | inr x => Some (inr (StErr x)) end.
+(* the rounds of a three-clause loop (after its init clause): condition, body, post; k: the rounds still allowed *)
+Definition loop3 (step : list sval -> stmt -> result) (c : sexp) (p : stmt) (b : list stmt) : nat -> list sval -> result :=
+  fix lp (k : nat) (rho : list sval) : result :=
+    match k with
+    | O => None
+    | S k' =>
+        match sev rho c with
+        | inl vc =>
+            if struthy vc then
+              match run_block step rho b with
+              | Some (inl (rho1, _)) | Some (inr (StCont rho1)) =>
+                  match step rho1 p with
+                  | Some (inl (rho2, _)) => lp k' rho2
+                  | other => other
+                  end
+              | Some (inr (StBrk rho1)) => Some (inl (rho1, VNil))
+              | other => other
+              end
+            else Some (inl (rho, VNil))
+        | inr x => Some (inr (StErr x))
+        end
+    end.
 Fixpoint run_stmt (fuel : nat) (rho : list sval) (s : stmt) {struct fuel} : result :=
   match fuel with
   | O => None
@@ -167,6 +200,10 @@ Fixpoint run_stmt (fuel : nat) (rho : list sval) (s : stmt) {struct fuel} : resu
                         else Some (inl (rho, VNil))
                     | inr x => Some (inr (StErr x))
                     end
+    | SFor e c p b => match sev rho e with
+                      | inl v => option_map (trunc (length rho)) (loop3 (run_stmt f) c p b f (rho ++ [v]))
+                      | inr x => Some (inr (StErr x))
+                      end
     | SBreak => Some (inr (StBrk rho))
     | SContinue => Some (inr (StCont rho))
     end
@@ -225,6 +262,19 @@ Fixpoint stmt_code (k : nat) (scope : list nat) (base : nat) (s : stmt) {struct 
       let inner := I cc ++ I [opPopJumpForwardIfFalse; (nlen cb + 6)%N] ++ cb ++ I [opPopTop] in
       let jb := nlen inner in
       (patch 0 (jb + 2) jb inner ++ I [opJumpBackward; jb; opNop], kc ++ kb)
+  | SFor e c p b =>
+      (* init; then the loop proper: head (condition, exit jump), body, PopTop, post, JumpBackward; break jumps behind the
+         JumpBackward, continue to the post statement *)
+      let '(ci, ki) := ce base e in
+      let sc1 := scope ++ [k] in
+      let '(cc, kc) := cexp_at (slot_of sc1) (base + length ki) c in
+      let '(cb, kb) := block_layout stmt_code (S k) sc1 (base + length ki + length kc) b in
+      let '(cp, kp) := stmt_code (S k) sc1 (base + length ki + length kc + length kb) p in
+      let head := I cc ++ I [opPopJumpForwardIfFalse; (nlen cb + 1 + nlen cp + 2 + 2)%N] in
+      let cont := (nlen head + nlen cb + 1)%N in
+      let jb := (cont + nlen cp)%N in
+      (I (ci ++ [opStoreGlobal; N.of_nat k]) ++ patch 0 (jb + 2) cont (head ++ cb ++ I [opPopTop] ++ cp) ++ I [opJumpBackward; jb],
+       ki ++ kc ++ kb ++ kp)
   | SBreak => ([SI opJumpForward; SBrk], [])
   | SContinue => ([SI opJumpForward; SCont], [])
   end.
